@@ -45,7 +45,7 @@ def shard_setup(obs) -> None:
 
 
 def gen_cases(tier: str, seed: int):
-    n = {"quick": 36, "thorough": 360}[tier]
+    n = {"quick": 36, "thorough": 150}[tier]
     rng = np.random.default_rng([seed, 15])
     for i in range(n):
         adapters, stager = [([], None), (["step"], None), (["step", "var"], [2, 1, 1, 2.0]), (["var"], [2, 0, 0, 2.0])][i % 4]
@@ -55,7 +55,7 @@ def gen_cases(tier: str, seed: int):
                "model_seed": int(rng.integers(0, 100)), "dim": int(rng.integers(1, 4)), "trace": [["pos"], ["pos", "scalars"], ["energy"]][i % 3],
                "trace_warm_up": bool(rng.integers(0, 2)), "transition": ["static", "multinomial", "slice"][i % 3], "init": "state",
                "n_process": 1 if mode.startswith("seq") else int(rng.choice([2, 3])), "force_memmap": "userdir" in mode}
-        yield {"cfg": cfg, "mode": mode, "n_points": {"quick": 4, "thorough": 12}[tier], "seed": [seed, i]}
+        yield {"cfg": cfg, "mode": mode, "n_points": {"quick": 4, "thorough": 10}[tier], "seed": [seed, i]}
 
 
 # ------------------------------------------------------------------------ child process
